@@ -21,7 +21,7 @@ ASSUMPTIONS = ["the methods under test are straight-line polynomial code (read),
 CONFIGS = ['scipy']
 BUDGET = {'quick': 24000, 'thorough': 500000}
 EXHAUSTIVE_NOTE = "all 2^(2(deg+1)) two-valued component assignments for deg 1,2,3 (16+64+256 cases) x 5 t values x all methods"
-REQUIRED = ['grid', 'float:L', 'float:Q', 'float:C', 'reassigned_control_points']
+REQUIRED = ['grid', 'float:L', 'float:Q', 'float:C', 'reassigned_control_points', 'reversed_copy_of_queried_segment', 'far_from_origin']
 
 EPS = 2.0 ** -52
 GRID_T = [F(0), F(1), F(1, 2), F(-1, 4), F(5, 4)]
@@ -42,8 +42,15 @@ def strategy(tier, config):
         ts = draw(st.lists(st.one_of(gen.ts_unit, gen.floats_in(-0.25, 1.25)), min_size=1, max_size=3))
         # hist: 0 = fresh object; 1/2 = the object held other control points first, was queried (poly/points/
         # length), then had its control points reassigned (2: length() again before the checks)
-        hist = draw(st.sampled_from([0, 0, 0, 1, 2]))
-        return {'kind': 'float', 'spec': b['spec'], 'tag': b['tag'], 'ts': ts, 'hist': hist}
+        # 3 = the object is the reversed() copy of the mirror-image segment, which had been queried before
+        hist = draw(st.sampled_from([0, 0, 0, 1, 2, 3]))
+        spec = b['spec']
+        if draw(st.integers(0, 4)) == 0:
+            # the same curve far from the origin (1e3..1e9 times its size away)
+            k = draw(st.sampled_from([1e3, 1e6, 1e9])) * (gen.spec_size([spec]) or 1.0)
+            dz = [k * draw(st.sampled_from([1.0, -1.0, 0.5])), k * draw(st.sampled_from([1.0, -0.7, 0.0]))]
+            spec = [spec[0]] + [[p[0] + dz[0], p[1] + dz[1]] for p in spec[1:]]
+        return {'kind': 'float', 'spec': spec, 'tag': b['tag'], 'ts': ts, 'hist': hist}
     return s()
 
 
@@ -137,7 +144,12 @@ def check_float(case, ctx):
     deg = len(pts) - 1
     cpts = [gen.C(p) for p in pts]
     hist = case.get('hist', 0)
-    if hist:
+    if hist == 3:
+        seg0 = gen.build_seg([spec[0]] + list(reversed(spec[1:])))
+        seg0.poly(); seg0.points([0.25, 0.75]); seg0.point(0.5); seg0.length(); seg0.bbox()
+        seg = ctx.lib('reversed', seg0.reversed)
+        ctx.count('reversed_copy_of_queried_segment')
+    elif hist:
         other = [spec[0]] + [[p[0] * 0.5 + 1.0, p[1] * 2.0 - 3.0] for p in pts]
         if kind == 'L' and other[1] == other[2]:
             other[2] = [other[2][0] + 1.0, other[2][1]]
@@ -154,6 +166,9 @@ def check_float(case, ctx):
         seg = gen.build_seg(spec)
     fpts = [R.fpt(p) for p in pts]
     ctx.count('float:' + kind)
+    ext = gen.spec_size([spec])
+    if ext > 0 and max(abs(c) for c in cpts) > 100 * ext:
+        ctx.count('far_from_origin')
     ctx.count('class:' + case['tag'])
     S = sum(abs(c) for c in cpts)
     if S == 0 or not math.isfinite(S):
